@@ -1216,6 +1216,13 @@ pub fn xargs_main(args: &[&str]) -> i32 {
                 match cx {
                     CommandExecutionError::UrgentlyFailed => 124,
                     CommandExecutionError::Killed { .. } => 125,
+                    // An argument with a NUL byte cannot be given to any
+                    // command: that is the input's fault.
+                    CommandExecutionError::CannotRun(e)
+                        if e.kind() == io::ErrorKind::InvalidInput =>
+                    {
+                        1
+                    }
                     CommandExecutionError::CannotRun(_) => 126,
                     CommandExecutionError::NotFound => 127,
                     CommandExecutionError::Unknown => 1,
